@@ -354,7 +354,9 @@ find_type(CPPScope *current_scope, CPPScope *global_scope,
 
   } else {
     CPPDeclaration *decl = find_symbol(current_scope, global_scope, error_sink);
-    type = decl->as_type();
+    if (decl != nullptr) {
+      type = decl->as_type();
+    }
     /*
     if (type != NULL) {
       if (!type->is_incomplete() || force_instantiate) {
